@@ -44,16 +44,23 @@ def main():
     print(json.dumps(meta['steps'], indent=1)); print('confirmed:', meta['confirmed'])
     if not meta['confirmed']:
         return 1
-    # run the registered check against /repo with the patch applied
-    rc, out = sh('git -C /repo status --porcelain')
-    assert out.strip() == '', '/repo not clean'
-    rc, out = sh(f'git -C /repo apply {patch}')
-    assert rc == 0, out
+    # run the registered check against a scratch copy of /repo's working tree with the patch applied
+    # (same as `git -C /repo apply` + check + `git -C /repo checkout -- .`, without blocking /repo)
+    import tempfile
+    scratch = tempfile.mkdtemp(prefix='verif-seed-', dir='/var/tmp')
     t0 = time.time()
     try:
-        rc, out = sh(f'VERIF_EVIDENCE_DIR=/var/tmp/seed-ev VERIF_REPLAY_DIR=/var/tmp/seed-replay bin/check {pid} --tier quick', cwd='/verif', timeout=7200)
+        sh(f'rsync -a --exclude target --exclude .git /repo/ {scratch}/')
+        rc, out = sh(f'patch -p1 -d {scratch} < {patch}')
+        assert rc == 0, out
+        rc, out = sh(f'VERIF_REPO={scratch} VERIF_EVIDENCE_DIR={scratch}/_ev VERIF_REPLAY_DIR={scratch}/_replay bin/check {pid} --tier quick', cwd='/verif', timeout=7200)
+        rep = []
+        if os.path.isdir(f'{scratch}/_replay'):
+            for f in sorted(os.listdir(f'{scratch}/_replay'))[:3]:
+                rep.append(json.load(open(os.path.join(scratch, '_replay', f))))
+        meta['replay_files'] = [{k: (str(v)[:1500]) for k, v in r.items() if k in ('failed_obligation', 'backend', 'search', 'harness')} for r in rep]
     finally:
-        sh('git -C /repo checkout -- .')
+        shutil.rmtree(scratch, ignore_errors=True)
     lines = [l for l in out.split('\n') if re.search(r'VIOLATION|UNDECIDED|OK property|failed obligation', l)]
     meta['check'] = {'cmd': f'bin/check {pid} --tier quick', 'exit': rc, 'lines': lines[:8], 'wall_s': round(time.time() - t0, 1)}
     meta['detected'] = rc == 1
